@@ -91,6 +91,10 @@ def mutations(seed, cls, extra=()):
     rnd = random.Random(seed)
     seeds = list(extra)
     out = [b'', b'\x00', b'\xff' * 4, b'\x00' * 8, b'\xff' * 16, bytes(range(32))]
+    # byte strings that are awkward for the text codecs the binary layer uses (ascii, utf-8, idna punycode labels)
+    for label in (b'xn--', b'xn--a', b'xn--zz', b'xn--ab-', b'\xc3', b'\xff\xfe', b'a' * 64):
+        out += [bytes([len(label)]) + label + b'\x00', label, bytes([len(label)]) + label,
+                b'\x00\x01' + bytes([len(label)]) + label + b'\x00']
     for n in (1, 2, 3, 4, 5, 6, 8, 12, 16, 24, 40, 64):
         for fill in (0x00, 0xff, 0x01, 0x80, 0x7f):
             out.append(bytes([fill]) * n)
